@@ -69,6 +69,14 @@ def gen_obs(rng, L):
                 out.append((Observable(str(rng.choice(TWO)), [s, s + 1]), "Local2"))
             else:
                 out.append((Observable(str(rng.choice(TWO_ENT)), [s, s + 1]), "Local2E"))
+        elif u < 0.64 and L >= 2:
+            # history on a gate object: ONE gate instance handed to several observables on different sites, listed out of site order
+            from mqt.yaqs.core.libraries.gate_library import GateLibrary
+
+            nm_ = str(rng.choice(["x", "y", "z"]))
+            shared = getattr(GateLibrary, nm_)()
+            for st_ in rng.permutation(L)[: int(rng.integers(2, min(L, 4) + 1))]:
+                out.append((Observable(shared, int(st_)), "Local1"))
         elif u < 0.7:
             # user-defined operators (all of them carry the gate name "custom"): two different ones on the same site(s)
             from mqt.yaqs.core.libraries.gate_library import BaseGate
